@@ -24,7 +24,8 @@ EXPLANATION = (
     "sampling content.")
 ASSUMPTIONS = ["GraphValue{} assignment destroys the previous graph (C14.f: reset stops before destroy)", "Value::equals is the key equality"]
 DECIDED = ["a re-selection guard", "b unmatched key", "c fresh instance", "d old branch silenced before the new one starts",
-           "e only the active child is evaluated", "f stop"]
+           "e only the active child is evaluated", "f stop",
+           'm sampling decisions test valid() on every arm']
 NOT_DECIDED = ["stream equality with the stand-alone branch", "sampled content"]
 
 
